@@ -177,6 +177,21 @@ def gen_cases(rng, tier_quick):
         for c_ in g: co += [c_, (F0, F0)]
         c = G.mono_case("even%d" % i, "even-real-irrational-imag-roots", co[:-1], rng); c["realcoef"] = True; c["even"] = True
         cs.append(c)
+    # roots scaled far outside the double range: the coefficients overflow / underflow doubles, so the solve starts in the
+    # DPE phase (mps_dupdate_inclusions, mps_dtouch*) and may go on to multiprecision; scaling keeps the side of each axis,
+    # and the unit-circle cases mix huge and tiny roots
+    base_c = [(1, -2), (-2, 3), (3, 1), (-1, -1)]                        # complex coefficients; Re, Im of opposite sign present
+    base_r = conj_close([(1, 2), (-2, 3)]) + [(3, 0)]                      # real coefficients
+    scales = [("1e120", Fr(10) ** 120), ("2^-400", Fr(1, 1 << 400))] if tier_quick else \
+             [("1e120", Fr(10) ** 120), ("2^-400", Fr(1, 1 << 400)), ("2^400", Fr(1 << 400)), ("1e-120", Fr(1, 10 ** 120)), ("1e300", Fr(10) ** 300)]
+    for nm, sc in scales:
+        for tag, base in (("cplx", base_c), ("real", base_r)):
+            c = _mk("scaled-%s-%s" % (nm, tag), "scaled-beyond-double-range", [(a * sc, b * sc) for a, b in base], rng)
+            c["scaled"] = True; cs.append(c)
+    H = Fr(10) ** 120
+    for tag, big, small in (("cplx", [(1, -1), (-2, 1)], [(1, 2), (-1, -3)]), ("real", conj_close([(1, -1)]), conj_close([(-1, 3)]) + [(2, 0)])):
+        c = _mk("scaled-unit-mixed-%s" % tag, "scaled-beyond-double-range", [(a * H, b * H) for a, b in big] + [(a / H, b / H) for a, b in small], rng)
+        c["scaled"] = True; cs.append(c)
     return cs
 
 
@@ -311,13 +326,13 @@ def judge(viol, case, opts, res, orc, facts, stats, tally):
             if inc[j] == 1:
                 v = strictly_inside(st, f)
                 stats["IN:" + ("ok" if v else "undecided" if v is None else "WRONG")] += 1
-                tally["claims-IN:" + st] += 1
+                tally["claims-IN:" + st] += 1; tally["judged:%s:%s" % (ph, st)] += 1
                 if v is False and confirm(k, j):
                     viol.append(("incl:claim=IN:root-not-inside:" + tag, "reported INSIDE the set '%s' but the root is not strictly inside: %s" % (SETNAME[st], where()), dict(rp, root=j)))
             elif inc[j] == 2:
                 v = strictly_outside(st, f)
                 stats["OUT:" + ("ok" if v else "undecided" if v is None else "WRONG")] += 1
-                tally["claims-OUT:" + st] += 1
+                tally["claims-OUT:" + st] += 1; tally["judged:%s:%s" % (ph, st)] += 1
                 if v is False and confirm(k, j):
                     viol.append(("incl:claim=OUT:root-not-outside:" + tag, "reported OUTSIDE the set '%s' but the root is not strictly outside: %s" % (SETNAME[st], where()), dict(rp, root=j)))
             else:
@@ -368,6 +383,21 @@ def run(ctx):
                 for a in "us":
                     for s_ in "io":
                         plan.append((c, ["-a", a, "-G", "ci"[len(plan) % 2], "-S", s_, "-D", "n"]))
+        # the scaled family: every search set under both algorithms, goals cycling (reaches the DPE and MP variants)
+        plan = [(c, o) for c, o in plan if not c.get("scaled")]
+        j = 0
+        for c in cases:
+            if c.get("scaled"):
+                for s_ in "rludioRI":
+                    if c.get("rational") and s_ in "RI": continue
+                    for a in "us":
+                        g = "cia"[j % 3]; j += 1
+                        plan.append((c, ["-a", a, "-G", g, "-S", s_, "-D", "n"] + (["-o", "40"] if g == "a" else [])))
+        # ordinary inputs with the computation started in the DPE phase (-t d)
+        pool = [c for c in cases if c["cls"] in ("off-boundary-complex", "real-coefficients-real+imag+complex-roots", "distance-2^-k-from-boundary", "tiny-parts-both-signs")]
+        for c in pool[:ctx.pick(8, 40)]:
+            for s_ in ctx.rng.sample("rludio", 3):
+                plan.append((c, ["-a", "us"[j % 2], "-G", "cia"[j % 3], "-S", s_, "-D", "n", "-t", "d"])); j += 1
     t_on, t_off = ctx.pick(6, 30), ctx.pick(60, 300)
     jobs = []
     for c, o in plan:
@@ -404,7 +434,7 @@ def run(ctx):
     targets = []
     for nm in names:
         t = min(e2e.min_radius_log2(S.discs_of(results[i])) for i in per_case[nm]) - 16
-        targets.append(max(t, -maxbits))
+        targets.append(max(min(t, -8), -(ctx.pick(1900, 2600) if byname[nm].get("scaled") else maxbits)))
     oracles = [Oracle(byname[nm]["coeffs"]) for nm in names]
     try:
         oks = certify_all(oracles, target_radius_log2=targets, workers=16, timeout=300)
@@ -460,6 +490,8 @@ def run(ctx):
            "claims_judged": dict(stats), "claims_by_set": dict(tally),
            "by_search_set": hist(lambda c, o: opt(o, "-S")), "by_goal": hist(lambda c, o: opt(o, "-G")),
            "by_algorithm": hist(lambda c, o: opt(o, "-a")), "by_detection": hist(lambda c, o: opt(o, "-D")),
+           "lastphase_by_set": dict(collections.Counter("%s:%s" % (PH.get(r.meta.get("lastphase"), "?"), opt(o, "-S")) for (c, o), r in zip(plan, results) if r.kind == "ok")),
+           "judged_IN_OUT_claims_by_lastphase_and_set": {k[7:]: v for k, v in tally.items() if k.startswith("judged:")},
            "by_class": hist(lambda c, o: c["cls"]), "degree_histogram": dict(collections.Counter(c["degree"] for c in cases)),
            "samples": samples,
            "trusted_base": ["Coq 8.16.1 kernel; C08 theorems use the stdlib real-number axioms only (see axioms_used); the root oracle's theorems are axiom-free",
